@@ -72,12 +72,13 @@ func VerifLoadLines(path string, rawText string, mk bool) (lines []VerifLine, eo
 
 // VerifFixOp is one edit made through the Autofix API on the logical line with
 // the given 0-based index: "touch" (line.Autofix() only, nothing modified),
-// "replace" (Replace(From, To)), "above" (InsertAbove(To)), "below"
+// "replace" (Replace(From, To)), "replaceafter" (ReplaceAfter(Prefix, From, To)), "above" (InsertAbove(To)), "below"
 // (InsertBelow(To)), "delete" (Delete()).
 type VerifFixOp struct {
 	Line     int
 	Kind     string
 	From, To string
+	Prefix   string // "replaceafter": ReplaceAfter(Prefix, From, To)
 }
 
 // VerifFixState is what SaveAutofixChanges reads from a line: whether it has a
@@ -115,6 +116,9 @@ func VerifSaveScript(path string, rawText string, mk bool, ops []VerifFixOp) (li
 			case "replace":
 				fix.Warnf("Verif replace.")
 				fix.Replace(op.From, op.To)
+			case "replaceafter":
+				fix.Warnf("Verif replace after.")
+				fix.ReplaceAfter(op.Prefix, op.From, op.To)
 			case "above":
 				fix.Warnf("Verif above.")
 				fix.InsertAbove(op.To)
